@@ -194,11 +194,13 @@ ReadBack(R, sched) == [ops |-> [i \in 1..Len(sched) |-> Lookup(R, sched, sched[i
 (*       (per task through GlobalStats.metrics(task), as compare does)      *)
 (*   D, DN  direct getter answers on S / NormalOnly(S)                      *)
 (*   diff   paths at which reloaded and original results differ (==)        *)
-(* Clauses about one (metric, task) are stated where "the requests of the   *)
-(* task" is unambiguous: no normal record of the task with another          *)
-(* operation type (dependent timings of composite operations).              *)
+(* "The requests / samples of the task" are the normal records that carry   *)
+(* the task's name AND the task's own operation type (Col, ReqCount with    *)
+(* own = TRUE; get_error_rate(task, operation_type, sample_type)): the      *)
+(* dependent timings of a composite operation (same task, other operation   *)
+(* type, their own success flags) are not requests of the task and must not *)
+(* enter its statistics or its error rate.                                  *)
 (***************************************************************************)
-Unamb(S, m, t) == Sel(S, m, t, TRUE, FALSE) = Sel(S, m, t, TRUE, TRUE)
 
 Monotone(k, v) == \A i, j \in 1..Len(k) : k[i] <= k[j] => RatLE(v[i], v[j])
 Bounded(k, v, c) == \A i \in 1..Len(k) : RatLE(CMin(c), v[i]) /\ RatLE(v[i], CMax(c))
@@ -216,10 +218,10 @@ ForTables(S, sched, o, P(_, _, _)) ==      \* P(key sequence, value sequence, co
            \A m \in {"lat", "svc", "proc"} :
              LET c == Col(S, m, sched[i][1])
                  tab == IF m = "lat" THEN o.R.ops[i].lat ELSE IF m = "svc" THEN o.R.ops[i].svc ELSE o.R.ops[i].proc
-             IN (c.n > 0 /\ Unamb(S, m, sched[i][1])) => P(tab.k, tab.v, c)
+             IN (c.n > 0) => P(tab.k, tab.v, c)
       /\ \A j \in 1..Len(TaskMetrics) :
              LET c == Col(S, TaskMetrics[j], sched[i][1])
-             IN (c.n > 0 /\ Unamb(S, TaskMetrics[j], sched[i][1])) => P(o.D[i][j].k, o.D[i][j].v, c)
+             IN (c.n > 0) => P(o.D[i][j].k, o.D[i][j].v, c)
 
 PctMonotone(S, sched, o) == ForTables(S, sched, o, LAMBDA k, v, c : Monotone(k, v))
 PctBounds(S, sched, o) == ForTables(S, sched, o, LAMBDA k, v, c : Bounded(k, v, c))
@@ -228,12 +230,12 @@ PctLinearInterpolation(S, sched, o) ==
     /\ ForTables(S, sched, o, LAMBDA k, v, c : IsInterpolated(k, v, c))
     /\ \A i \in Tasks(sched) :
          LET c == Col(S, "tp", sched[i][1])
-         IN (o.R.ops[i].p /\ c.n > 0 /\ Unamb(S, "tp", sched[i][1])) => o.R.ops[i].tp.med = Percentile(c, 5000)
+         IN (o.R.ops[i].p /\ c.n > 0) => o.R.ops[i].tp.med = Percentile(c, 5000)
 P50Median(S, sched, o) ==
     /\ ForTables(S, sched, o, LAMBDA k, v, c : P50IsMedian(k, v, c))
     /\ \A i \in Tasks(sched) :
          LET c == Col(S, "tp", sched[i][1])
-         IN (o.R.ops[i].p /\ c.n > 0 /\ Unamb(S, "tp", sched[i][1])) => o.R.ops[i].tp.med = Median(c)
+         IN (o.R.ops[i].p /\ c.n > 0) => o.R.ops[i].tp.med = Median(c)
 
 MeanMinMax(S, sched, o) ==
     \A i \in Tasks(sched) :
@@ -241,26 +243,26 @@ MeanMinMax(S, sched, o) ==
           r == o.R.ops[i]
       IN /\ r.p =>
               /\ LET c == Col(S, "tp", t)
-                 IN (c.n > 0 /\ Unamb(S, "tp", t)) => r.tp.min = CMin(c) /\ r.tp.max = CMax(c) /\ r.tp.mean = Mean(c)
-              /\ LET c == Col(S, "lat", t) IN (c.n > 0 /\ Unamb(S, "lat", t)) => r.lat.mean = Mean(c)
-              /\ LET c == Col(S, "svc", t) IN (c.n > 0 /\ Unamb(S, "svc", t)) => r.svc.mean = Mean(c)
-              /\ LET c == Col(S, "proc", t) IN (c.n > 0 /\ Unamb(S, "proc", t)) => r.proc.mean = Mean(c)
+                 IN (c.n > 0) => r.tp.min = CMin(c) /\ r.tp.max = CMax(c) /\ r.tp.mean = Mean(c)
+              /\ LET c == Col(S, "lat", t) IN (c.n > 0) => r.lat.mean = Mean(c)
+              /\ LET c == Col(S, "svc", t) IN (c.n > 0) => r.svc.mean = Mean(c)
+              /\ LET c == Col(S, "proc", t) IN (c.n > 0) => r.proc.mean = Mean(c)
          /\ \A j \in 1..Len(TaskMetrics) :
               LET c == Col(S, TaskMetrics[j], t)
                   d == o.D[i][j]
-              IN (c.n > 0 /\ Unamb(S, TaskMetrics[j], t)) => d.min = CMin(c) /\ d.max = CMax(c) /\ d.mean = Mean(c)
+              IN (c.n > 0) => d.min = CMin(c) /\ d.max = CMax(c) /\ d.mean = Mean(c)
 
 (* <<sample count, reported percentile keys>> of every reported table of the observation *)
 CountKeys(S, sched, o) ==
     {<<Col(S, m, sched[i][1]).n,
        IF m = "lat" THEN o.R.ops[i].lat.k ELSE IF m = "svc" THEN o.R.ops[i].svc.k ELSE o.R.ops[i].proc.k>> :
-        <<i, m>> \in {x \in Tasks(sched) \X {"lat", "svc", "proc"} : o.R.ops[x[1]].p /\ Unamb(S, x[2], sched[x[1]][1])}}
+        <<i, m>> \in {x \in Tasks(sched) \X {"lat", "svc", "proc"} : o.R.ops[x[1]].p}}
 Functional(pairs) == \A a, b \in pairs : a[1] = b[1] => a[2] = b[2]
 PctSetByCount(S, sched, o) == Functional(CountKeys(S, sched, o))
 
 ErrorRateIsFailedOverAll(S, sched, o) ==
     \A i \in Tasks(sched) :
-      (o.R.ops[i].p /\ Unamb(S, "svc", sched[i][1]) /\ ReqCount(S, sched[i][1], TRUE) > 0)
+      (o.R.ops[i].p /\ ReqCount(S, sched[i][1], TRUE) > 0)
          => o.R.ops[i].er = FailedOverAll(S, sched[i][1], TRUE)
 
 (* only the statistics: units and the duration (not part of the summary report) are left out *)
